@@ -87,10 +87,12 @@ Definition sql_delete_links (t : N) (s : bool) (x : Z) (st : state) : state :=
 Definition sql_delete_row (k : N) (x : Z) (st : state) : state :=
   map_tabs (fun k' rs => if N.eqb k' k then filter (fun r => negb (Z.eqb (r_id r) x)) rs else rs) st.
 
-(* cache.expire(id, cls): CacheFactory.expire returns at once when doCache is off *)
-Definition cache_expire (doCache : bool) (p : node) (st : state) : state :=
+(* cache.purge(id, cls): CacheFactory.purge drops the strong entry (kept when
+   doCache) and the weak entry (kept in either mode): whatever the connection's
+   cache= setting, the instance can no longer be handed out *)
+Definition cache_purge (doCache : bool) (p : node) (st : state) : state :=
   {| s_tabs := s_tabs st; s_links := s_links st;
-     s_cache := if doCache then filter (fun q => negb (node_eqb q p)) (s_cache st) else s_cache st |}.
+     s_cache := filter (fun q => negb (node_eqb q p)) (s_cache st) |}.
 
 (* findDependantColumns(name, klass) *)
 Definition collected (name : N) (c : fkcol) : bool :=
@@ -107,6 +109,13 @@ Definition row_matches (name : N) (x : Z) (k : classdef) (r : row) : bool :=
   existsb (fun cv => collected name (fst cv) && val_is (snd cv) x) (combine (c_fks k) (r_vals r)).
 Definition select_matching (name : N) (x : Z) (k : classdef) (st : state) : list row :=
   filter (row_matches name x k) (table st (c_name k)).
+
+(* k.select(OR(col == id for the cascade=False columns)) *)
+Definition row_restricts (name : N) (x : Z) (k : classdef) (r : row) : bool :=
+  existsb (fun cv => is_restrict (fk_policy (fst cv)) && N.eqb (fk_target (fst cv)) name && val_is (snd cv) x)
+          (combine (c_fks k) (r_vals r)).
+Definition select_restricting (name : N) (x : Z) (k : classdef) (st : state) : list row :=
+  filter (row_restricts name x k) (table st (c_name k)).
 
 (* Values after setting to NULL every SetNull column c whose current value y
    satisfies P (fk_target c) y. *)
@@ -159,8 +168,9 @@ Definition dep_step (rec : state -> node -> result) (name : N) (x : Z) (k : clas
   if is_nil cols then Done st1
   else
     let restrict := existsb (fun c => is_restrict (fk_policy c)) cols in
-    (* results = k.select(query); if restrict and results.count(): raise *)
-    if restrict && negb (is_nil (select_matching name x k st1)) then Raised st1
+    (* results = k.select(query);
+       if restrict and k.select(OR of restrict).count(): raise *)
+    if restrict && negb (is_nil (select_restricting name x k st1)) then Raised st1
     else
       let st2 :=
         if existsb (fun c => is_setnull (fk_policy c)) cols
@@ -180,7 +190,7 @@ Fixpoint destroy (doCache : bool) (fuel : nat) (g : graph) (st : state) (p : nod
       (* free related joins on the base class *)
       let st1 := fold_left (fun s j => sql_delete_links (j_table j) (j_side j) x s) (joins_of g name) st in
       match run_list (dep_step (destroy doCache f g) name x) (find_dependencies name g) st1 with
-      | Done st2 => Done (cache_expire doCache p (sql_delete_row name x st2))
+      | Done st2 => Done (cache_purge doCache p (sql_delete_row name x st2))
       | other => other
       end
   end.
@@ -236,8 +246,7 @@ Definition apply (doCache : bool) (g : graph) (sg : sigma) (st : state) : state 
      s_links := map (fun e => (fst e, filter (fun p => negb (sg_link sg (fst e) false (fst p)
                                                          || sg_link sg (fst e) true (snd p))) (snd e)))
                     (s_links st);
-     s_cache := if doCache then filter (fun q => negb (sg_del sg (fst q) (snd q))) (s_cache st)
-                else s_cache st |}.
+     s_cache := filter (fun q => negb (sg_del sg (fst q) (snd q))) (s_cache st) |}.
 
 (* class `name` sits on side s of link table t in some declared RelatedJoin
    (as the declaring class or as the other class) *)
@@ -276,31 +285,21 @@ Fixpoint boundedb (f : nat) (g : graph) (st : state) (p : node) : bool :=
 Definition acyclicb (g : graph) (st : state) (p : node) : bool :=
   boundedb (S (length (all_nodes g st))) g st p.
 
-(* the code's restrict test, evaluated in the initial state, fires for some row of D *)
-Definition fires (g : graph) (st : state) (D : list node) : bool :=
-  existsb (fun d => existsb (fun k =>
-     existsb (fun c => is_restrict (fk_policy c)) (dep_cols (fst d) k) &&
-     negb (is_nil (select_matching (fst d) (snd d) k st))) g) D.
-(* ... although no row of D is referenced through a cascade=False column:
-   a class with a cascade=False column and another collected column to the
-   same target, referenced only through the latter *)
-Definition mixed_trigger (g : graph) (st : state) (p : node) : bool :=
-  fires g st (closure g st p) && negb (restricted g st (closure g st p)).
-
 (* no link row mentions p on a side where a declared join puts p's class *)
 Definition no_links_of (g : graph) (st : state) (p : node) : bool :=
   forallb (fun e => forallb (fun l =>
      negb ((hitb g (fst p) (fst e) false && Z.eqb (fst l) (snd p)) ||
            (hitb g (fst p) (fst e) true && Z.eqb (snd l) (snd p)))) (snd e)) (s_links st).
 (* a refusal that is noticed before anything was written: the victim has no
-   link rows, and every class holding a row that references the victim
-   through a collected column also has a cascade=False column to it *)
+   link rows, some row references it through a cascade=False column, and every
+   class holding a row that references the victim through a collected column
+   holds one that does so through a cascade=False column *)
 Definition immediate_refusal (g : graph) (st : state) (p : node) : bool :=
   no_links_of g st p &&
-  existsb (fun k => negb (is_nil (select_matching (fst p) (snd p) k st))) g &&
+  existsb (fun k => negb (is_nil (select_restricting (fst p) (snd p) k st))) g &&
   forallb (fun k => is_nil (select_matching (fst p) (snd p) k st) ||
-                    existsb (fun c => is_restrict (fk_policy c)) (dep_cols (fst p) k)) g.
+                    negb (is_nil (select_restricting (fst p) (snd p) k st))) g.
 
 Definition guard_ok (g : graph) (st : state) (p : node) : bool :=
-  acyclicb g st p && negb (mixed_trigger g st p) &&
+  acyclicb g st p &&
   (negb (restricted g st (closure g st p)) || immediate_refusal g st p).
